@@ -94,6 +94,9 @@ pub fn generate(seed: u64, cases: usize, out: &mut Vec<String>) {
             if r.chance(1, 3) {
                 out.push(format!("pers copy {}", r.pick(&["expimp", "tomem", "save"])));
             }
+            if r.chance(1, 3) {
+                out.push(format!("pers copyadd {} {}", r.pick(&["expimp", "tomem", "save", "save"]), r.range(1, 3)));
+            }
             out.push("pers close".into());
             out.push("pers reopen".into());
             out.push("pers dump".into());
@@ -249,6 +252,32 @@ pub fn run(st: &mut PersSt, args: &[&str]) -> String {
                     dump(&c)
                 }
             },
+            ["copyadd", kind, n] => {
+                let n: usize = n.parse().unwrap();
+                let _keep;
+                let c = match *kind {
+                    "expimp" => GrafeoDB::import_snapshot(&db.export_snapshot().unwrap()).unwrap(),
+                    "tomem" => db.to_memory().unwrap(),
+                    _ => {
+                        let d2 = tempfile::tempdir().unwrap();
+                        let p = d2.path().join("copy");
+                        db.save(&p).unwrap();
+                        let c = GrafeoDB::open(&p).unwrap();
+                        _keep = d2;
+                        c
+                    }
+                };
+                let mut ids: Vec<u64> = c.iter_nodes().map(|n| n.id.as_u64()).collect();
+                ids.sort_unstable();
+                match (ids.first(), ids.last()) {
+                    (Some(a), Some(b)) => {
+                        let made: Vec<String> =
+                            (0..n).map(|_| c.create_edge(NodeId::new(*a), NodeId::new(*b), "T0").as_u64().to_string()).collect();
+                        format!("{}|{}", made.join(","), dump(&c))
+                    }
+                    _ => "-".into(),
+                }
+            }
             _ => "bad-op".into(),
         }
     })
